@@ -2,7 +2,11 @@
 // what gomavlib uses today (a later edit may introduce a pool, a Once, a RWMutex ...).
 package vsync
 
-import "github.com/bluenviron/gomavlib/v3/pkg/vmc"
+import (
+	"sync"
+
+	"github.com/bluenviron/gomavlib/v3/pkg/vmc"
+)
 
 // Mutex is the controlled mutex.
 type Mutex = vmc.Mutex
@@ -16,24 +20,8 @@ type Locker interface {
 	Unlock()
 }
 
-// RWMutex is modelled as a plain mutex (readers exclude each other: fewer behaviours than
-// the real one, never more).
-type RWMutex struct{ m vmc.Mutex }
-
-// Lock locks for writing.
-func (rw *RWMutex) Lock() { rw.m.Lock() }
-
-// Unlock unlocks.
-func (rw *RWMutex) Unlock() { rw.m.Unlock() }
-
-// RLock locks for reading.
-func (rw *RWMutex) RLock() { rw.m.Lock() }
-
-// RUnlock unlocks.
-func (rw *RWMutex) RUnlock() { rw.m.Unlock() }
-
-// RLocker returns a Locker for the read side.
-func (rw *RWMutex) RLocker() Locker { return &rw.m }
+// RWMutex is the controlled readers-writer lock.
+type RWMutex = vmc.RWMutex
 
 // Once runs a function once.
 type Once struct {
@@ -43,13 +31,6 @@ type Once struct {
 
 // Do calls f if Do was not called before.
 func (o *Once) Do(f func()) {
-	if vmc.S == nil {
-		if !o.done {
-			o.done = true
-			f()
-		}
-		return
-	}
 	o.m.Lock()
 	defer o.m.Unlock()
 	if !o.done {
@@ -63,12 +44,22 @@ func (o *Once) Do(f func()) {
 // and the one that exposes use-after-Put).
 type Pool struct {
 	New   func() any
+	real  sync.Pool // outside of an execution (no scheduler) the shim is the real pool
 	items []any
 	syncs []*vmc.SyncObj // "a call to Put(x) synchronizes before a call to Get returning that same value x"
 }
 
 // Get takes an item.
 func (p *Pool) Get() any {
+	if vmc.S == nil {
+		if x := p.real.Get(); x != nil {
+			return x
+		}
+		if p.New != nil {
+			return p.New()
+		}
+		return nil
+	}
 	if n := len(p.items); n > 0 {
 		x := p.items[n-1]
 		p.items = p.items[:n-1]
@@ -84,6 +75,10 @@ func (p *Pool) Get() any {
 
 // Put returns an item.
 func (p *Pool) Put(x any) {
+	if vmc.S == nil {
+		p.real.Put(x)
+		return
+	}
 	if x != nil {
 		p.items = append(p.items, x)
 		so := &vmc.SyncObj{}
@@ -92,10 +87,34 @@ func (p *Pool) Put(x any) {
 	}
 }
 
-// Map is a mutex-protected map.
+// Map is a mutex-protected map; Range visits the entries in insertion order (the real one
+// promises no order; a deterministic one keeps executions replayable).
 type Map struct {
-	m vmc.Mutex
-	d map[any]any
+	m    vmc.Mutex
+	d    map[any]any
+	keys []any
+}
+
+func (m *Map) set(k, v any) {
+	if m.d == nil {
+		m.d = map[any]any{}
+	}
+	if _, ok := m.d[k]; !ok {
+		m.keys = append(m.keys, k)
+	}
+	m.d[k] = v
+}
+
+func (m *Map) del(k any) {
+	if _, ok := m.d[k]; ok {
+		delete(m.d, k)
+		for i, x := range m.keys {
+			if x == k {
+				m.keys = append(m.keys[:i:i], m.keys[i+1:]...)
+				break
+			}
+		}
+	}
 }
 
 // Load returns the value stored for a key.
@@ -110,23 +129,17 @@ func (m *Map) Load(k any) (any, bool) {
 func (m *Map) Store(k, v any) {
 	m.m.Lock()
 	defer m.m.Unlock()
-	if m.d == nil {
-		m.d = map[any]any{}
-	}
-	m.d[k] = v
+	m.set(k, v)
 }
 
 // LoadOrStore returns the existing value or stores the given one.
 func (m *Map) LoadOrStore(k, v any) (any, bool) {
 	m.m.Lock()
 	defer m.m.Unlock()
-	if m.d == nil {
-		m.d = map[any]any{}
-	}
 	if old, ok := m.d[k]; ok {
 		return old, true
 	}
-	m.d[k] = v
+	m.set(k, v)
 	return v, false
 }
 
@@ -134,17 +147,16 @@ func (m *Map) LoadOrStore(k, v any) (any, bool) {
 func (m *Map) Delete(k any) {
 	m.m.Lock()
 	defer m.m.Unlock()
-	delete(m.d, k)
+	m.del(k)
 }
 
-// Range calls f for every entry (snapshot, deterministic insertion-independent order is not
-// guaranteed by the real one either).
+// Range calls f for every entry of a snapshot, in insertion order.
 func (m *Map) Range(f func(k, v any) bool) {
 	m.m.Lock()
 	type kv struct{ k, v any }
 	var l []kv
-	for k, v := range m.d {
-		l = append(l, kv{k, v})
+	for _, k := range m.keys {
+		l = append(l, kv{k, m.d[k]})
 	}
 	m.m.Unlock()
 	for _, e := range l {
@@ -159,7 +171,7 @@ func (m *Map) LoadAndDelete(k any) (any, bool) {
 	m.m.Lock()
 	defer m.m.Unlock()
 	v, ok := m.d[k]
-	delete(m.d, k)
+	m.del(k)
 	return v, ok
 }
 
@@ -167,11 +179,8 @@ func (m *Map) LoadAndDelete(k any) (any, bool) {
 func (m *Map) Swap(k, v any) (any, bool) {
 	m.m.Lock()
 	defer m.m.Unlock()
-	if m.d == nil {
-		m.d = map[any]any{}
-	}
 	old, ok := m.d[k]
-	m.d[k] = v
+	m.set(k, v)
 	return old, ok
 }
 
@@ -191,7 +200,7 @@ func (m *Map) CompareAndDelete(k, old any) bool {
 	m.m.Lock()
 	defer m.m.Unlock()
 	if cur, ok := m.d[k]; ok && cur == old {
-		delete(m.d, k)
+		m.del(k)
 		return true
 	}
 	return false
@@ -201,7 +210,7 @@ func (m *Map) CompareAndDelete(k, old any) bool {
 func (m *Map) Clear() {
 	m.m.Lock()
 	defer m.m.Unlock()
-	m.d = nil
+	m.d, m.keys = nil, nil
 }
 
 // OnceFunc is sync.OnceFunc.
